@@ -141,15 +141,19 @@ def leaveL (s : NState) (ns : Bytes) : NState × Actor.Reply :=
     | (a1, r) => ({ s with a := a1 }, r)
   else (s, .ok)
 
+/-- `doc_create` / `doc_import`: the actor's import, then an open with default options -/
+def importThenOpen (s : NState) (ns : Bytes) (kind : Nat) (raw : Bytes) : NState × Reply :=
+  match Actor.step s.a (.importNamespace ns kind raw) with
+  | (a1, .ok) => withA s (Actor.step a1 (.openR ns false false))
+  | p => withA s p
+
+/-- `leave` with `kill_subscribers`: the client streams of the document end -/
+def markGone (s : NState) (ns : Bytes) : NState :=
+  { s with apiSubs := s.apiSubs.map (fun p => if p.2.1 == ns then (p.1, p.2.1, true) else p) }
+
 def stepRaw (s : NState) : Req → NState × Reply
-  | .create ns raw =>
-    match Actor.step s.a (.importNamespace ns 1 raw) with
-    | (a1, .ok) => withA s (Actor.step a1 (.openR ns false false))
-    | p => withA s p
-  | .importNs ns kind raw =>
-    match Actor.step s.a (.importNamespace ns kind raw) with
-    | (a1, .ok) => withA s (Actor.step a1 (.openR ns false false))
-    | p => withA s p
+  | .create ns raw => importThenOpen s ns 1 raw
+  | .importNs ns kind raw => importThenOpen s ns kind raw
   | .openDoc ns => withA s (Actor.step s.a (.openR ns false false))
   | .closeDoc ns => ({ s with a := (Actor.step s.a (.close ns)).1 }, .act .ok)
   | .status ns => withA s (Actor.step s.a (.getState ns))
@@ -157,8 +161,7 @@ def stepRaw (s : NState) : Req → NState × Reply
     match leaveL s ns with
     | (s1, .ok) =>
       -- `kill_subscribers`: the client streams of this document end here, whatever the removal answers
-      let s1 := { s1 with apiSubs := s1.apiSubs.map (fun p => if p.2.1 == ns then (p.1, p.2.1, true) else p) }
-      withA s1 (Actor.step s1.a (.dropReplica ns))
+      withA (markGone s1 ns) (Actor.step s1.a (.dropReplica ns))
     | (s1, r) => (s1, .act r)
   | .setHash ns e =>
     -- `get_author` comes first, then the open replica
